@@ -49,6 +49,8 @@ pub enum Family {
     ExpN(usize),
     /// e^{-p0 x} cos(p1 x + p2) (1 + p3 x) DECLARED as f(p0, p2, p1, p3) (interior permuted), e^{-p3 x}, 1
     Perm4,
+    /// x e^{-x/p0}, sin(p1 x): every basis function and every derivative vanishes at x = 0 (a zero row in Phi, J and H)
+    XExpSin,
     /// hand-written only
     PolyMat(Arc<PolySpec>),
     /// M x P incidence (row j = parameters used by function j)
@@ -65,6 +67,7 @@ impl Family {
             Family::OLeary => "OLeary".into(),
             Family::ExpN(n) => format!("ExpN{}", n),
             Family::Perm4 => "Perm4".into(),
+            Family::XExpSin => "XExpSin".into(),
             Family::PolyMat(s) => format!("PolyMat{}x{}x{}", s.n, s.m, s.p),
             Family::GenProd { m, p, inc } => {
                 let mut s = format!("GenProd{}x{}:", m, p);
@@ -89,6 +92,7 @@ impl Family {
             Family::OLeary => 2,
             Family::ExpN(n) => *n,
             Family::Perm4 => 3,
+            Family::XExpSin => 2,
             Family::PolyMat(s) => s.m,
             Family::GenProd { m, .. } => *m,
         }
@@ -102,6 +106,7 @@ impl Family {
             Family::OLeary => 3,
             Family::ExpN(n) => *n,
             Family::Perm4 => 4,
+            Family::XExpSin => 2,
             Family::PolyMat(s) => s.p,
             Family::GenProd { p, .. } => *p,
         }
@@ -134,6 +139,7 @@ impl Family {
                 0 => vec![2, 1],
                 _ => vec![0, 1],
             },
+            Family::XExpSin => vec![j],
             Family::Perm4 => match j {
                 0 => vec![0, 2, 1, 3],
                 1 => vec![3],
@@ -168,6 +174,7 @@ impl Family {
                 "GaussDecayOff" => Family::GaussDecayOff,
                 "OLeary" => Family::OLeary,
                 "Perm4" => Family::Perm4,
+                "XExpSin" => Family::XExpSin,
                 o if o.starts_with("ExpN") => Family::ExpN(o[4..].parse().expect("ExpN<n>")),
                 o => panic!("family {}", o),
             };
@@ -240,6 +247,10 @@ pub fn phi<T: Sc>(fam: &Family, j: usize, i: usize, x: T, a: &[T]) -> T {
             0 => Float::exp(-(a[1] * x)) * Float::cos(a[2] * x),
             _ => Float::exp(-(a[0] * x)) * Float::cos(a[1] * x),
         },
+        Family::XExpSin => match j {
+            0 => x * Float::exp(-x / a[0]),
+            _ => Float::sin(a[1] * x),
+        },
         Family::Perm4 => match j {
             0 => Float::exp(-(a[0] * x)) * Float::cos(a[1] * x + a[2]) * (T::f(1.0) + a[3] * x),
             1 => Float::exp(-(a[3] * x)),
@@ -249,7 +260,11 @@ pub fn phi<T: Sc>(fam: &Family, j: usize, i: usize, x: T, a: &[T]) -> T {
             let idx = i * s.m + j;
             let mut v = T::f(s.a0[idx]);
             for k in 0..s.p {
-                v = v + a[k] * T::f(s.a[k][idx]) + a[k] * a[k] * T::f(s.b[k][idx]);
+                v = v + a[k] * T::f(s.a[k][idx]);
+                // the quadratic term only where the specification has one: a[k]^2 may overflow the scalar type, and inf * 0 is NaN
+                if s.b[k][idx] != 0.0 {
+                    v = v + a[k] * a[k] * T::f(s.b[k][idx]);
+                }
             }
             v
         }
@@ -317,6 +332,11 @@ pub fn dphi<T: Sc>(fam: &Family, j: usize, k: usize, i: usize, x: T, a: &[T]) ->
             (1, 1) => -x * Float::exp(-(a[0] * x)) * Float::sin(a[1] * x),
             _ => zero,
         },
+        Family::XExpSin => match (j, k) {
+            (0, 0) => x * x / (a[0] * a[0]) * Float::exp(-x / a[0]),
+            (1, 1) => x * Float::cos(a[1] * x),
+            _ => zero,
+        },
         Family::Perm4 => {
             let e = Float::exp(-(a[0] * x));
             let arg = a[1] * x + a[2];
@@ -332,7 +352,11 @@ pub fn dphi<T: Sc>(fam: &Family, j: usize, k: usize, i: usize, x: T, a: &[T]) ->
         }
         Family::PolyMat(s) => {
             let idx = i * s.m + j;
-            T::f(s.a[k][idx]) + T::f(2.0) * a[k] * T::f(s.b[k][idx])
+            if s.b[k][idx] != 0.0 {
+                T::f(s.a[k][idx]) + T::f(2.0) * a[k] * T::f(s.b[k][idx])
+            } else {
+                T::f(s.a[k][idx])
+            }
         }
         Family::GenProd { p, inc, .. } => {
             if !inc[j][k] {
